@@ -49,7 +49,21 @@ func TestVerifJWorker(t *testing.T) {
 	var st *NomsBlockStore
 	var last hash.Hash
 	var pending []hash.Hash
+	var roots []hash.Hash // every root this worker committed, in order
 	nput := 0
+	// ackLine: journal size on disk and the journal's logical end (file + writer buffer)
+	ackLine := func() {
+		sz := int64(-1)
+		if fi, err := os.Stat(verifJJournalPath(dir)); err == nil {
+			sz = fi.Size()
+		}
+		logical := int64(-1)
+		if j, ok := st.persister.(*ChunkJournal); ok && j.wr != nil {
+			logical = j.wr.currentSize()
+		}
+		// the acknowledgement: written after Commit returned true
+		verifJWorkerReply("ok ACK root=%s jsize=%d jlogical=%d", verifJHex(last), sz, logical)
+	}
 	run := func(line string) (exit bool) {
 		f := strings.Fields(line)
 		if len(f) == 0 {
@@ -156,12 +170,33 @@ func TestVerifJWorker(t *testing.T) {
 				return
 			}
 			last, pending = rc.Hash(), nil
-			sz := int64(-1)
-			if fi, err := os.Stat(verifJJournalPath(dir)); err == nil {
-				sz = fi.Size()
+			roots = append(roots, last)
+			ackLine()
+		case "revert": // commit the previous distinct root again: a root record and no chunk record
+			if last.IsEmpty() {
+				if r, err := verifJLoad(st); err == nil {
+					last = r
+				}
 			}
-			// the acknowledgement: written after Commit returned true
-			verifJWorkerReply("ok ACK root=%s jsize=%d", verifJHex(last), sz)
+			var target hash.Hash
+			for i := len(roots) - 1; i >= 0; i-- {
+				if roots[i] != last {
+					target = roots[i]
+					break
+				}
+			}
+			if target.IsEmpty() {
+				verifJWorkerReply("ok skipped")
+				return
+			}
+			done, err := st.Commit(verifJCtx, target, last)
+			if err != nil || !done {
+				verifJWorkerReply("refused commit: %v %v", done, err)
+				return
+			}
+			last = target
+			roots = append(roots, last)
+			ackLine()
 		case "prune":
 			if err := st.PruneTableFiles(verifJCtx); err != nil {
 				verifJWorkerReply("refused %v", err)
